@@ -120,6 +120,7 @@ static inline uint64_t spec_sx_horner(const char *s, size_t from, size_t to, uin
  * constrained only by LOCAL defining equations (bounded quantifier over the
  * constant SX_QMAX: tier A-len, input length <= SX_QMAX; every equation
  * refers to larger positions only, so the tables are unique):
+ *   CH[k] the input octet s[k]
  *   W[k]  first position >= k that is not whitespace, or n
  *   S[k], D[k], X[k]  end of the run of symbol constituents / decimal digits
  *         / hexadecimal digits starting at k
@@ -148,21 +149,40 @@ static inline uint64_t spec_sx_horner(const char *s, size_t from, size_t to, uin
 #endif
 #define SX_FAIL(n) ((n) + 1)
 #define SX_TAB_LEN (SX_QMAX + 2)
-extern const size_t *g_sxW, *g_sxS, *g_sxD, *g_sxX, *g_sxC, *g_sxT, *g_sxE, *g_sxL;
+#if SX_QMAX > 200
+#error "table entries are octets: SX_QMAX must stay below 200"
+#endif
+/* one ghost object (a single pointer keeps every table read unambiguous for
+ * the solver); entries are octets: positions are <= SX_QMAX + 1 < 256 */
+struct sx_tabs {
+  char CH[SX_TAB_LEN];     /* CH[k] == s[k]: the one place where the input itself is read */
+  unsigned char W[SX_TAB_LEN], S[SX_TAB_LEN], D[SX_TAB_LEN], X[SX_TAB_LEN],
+                C[SX_TAB_LEN], T[SX_TAB_LEN], E[SX_TAB_LEN], L[SX_TAB_LEN];
+};
+extern const struct sx_tabs *g_sxt;
+#define g_sxCH (g_sxt->CH)
+#define g_sxW (g_sxt->W)
+#define g_sxS (g_sxt->S)
+#define g_sxD (g_sxt->D)
+#define g_sxX (g_sxt->X)
+#define g_sxC (g_sxt->C)
+#define g_sxT (g_sxt->T)
+#define g_sxE (g_sxt->E)
+#define g_sxL (g_sxt->L)
 extern int g_sx_tabs;
 
 /* s[e] or a delimiter when e is the end of the input */
-#define SX_AT(s, n, e) ((e) < (n) ? (s)[e] : ' ')
+#define SX_AT(s, n, e) ((e) < (n) ? g_sxCH[e] : ' ')
 /* token class at j < n (call-free twin of spec_sx_looking_at) */
 #define SX_CLS(s, n, j) \
-  (((n) - (j) > 2 && (s)[j] == '#' && SX_AT(s, n, (j) + 1) == 'x' && SPEC_SX_ISXDIGIT(SX_AT(s, n, (j) + 2))) ? SPEC_SX_AT_INT_HEX \
-   : (s)[j] == '(' ? SPEC_SX_AT_OPEN : (s)[j] == ')' ? SPEC_SX_AT_CLOSE \
-   : SPEC_SX_ISDIGIT((s)[j]) ? SPEC_SX_AT_INT_DEC : SPEC_SX_ISSYMINIT((s)[j]) ? SPEC_SX_AT_SYMBOL : SPEC_SX_AT_UNKNOWN)
+  (((n) - (j) > 2 && g_sxCH[j] == '#' && SX_AT(s, n, (j) + 1) == 'x' && SPEC_SX_REF_ISXDIGIT(SX_AT(s, n, (j) + 2))) ? SPEC_SX_AT_INT_HEX \
+   : g_sxCH[j] == '(' ? SPEC_SX_AT_OPEN : g_sxCH[j] == ')' ? SPEC_SX_AT_CLOSE \
+   : SPEC_SX_REF_ISDIGIT(g_sxCH[j]) ? SPEC_SX_AT_INT_DEC : SPEC_SX_REF_ISSYMINIT(g_sxCH[j]) ? SPEC_SX_AT_SYMBOL : SPEC_SX_AT_UNKNOWN)
 /* raw end of the atom of class c that starts at j */
 #define SX_ATOM_END(c, j) ((c) == SPEC_SX_AT_SYMBOL ? g_sxS[j] : (c) == SPEC_SX_AT_INT_DEC ? g_sxD[j] : g_sxX[(j) + 2])
 #define SX_IS_ATOM(c) ((c) == SPEC_SX_AT_SYMBOL || (c) == SPEC_SX_AT_INT_DEC || (c) == SPEC_SX_AT_INT_HEX)
 #define SX_ATOM_T(s, n, c, j) \
-  ((SX_IS_ATOM(c) && (SX_ATOM_END(c, j) >= (n) || SPEC_SX_ISDELIM(SX_AT(s, n, SX_ATOM_END(c, j))))) \
+  ((SX_IS_ATOM(c) && (SX_ATOM_END(c, j) >= (n) || SPEC_SX_REF_ISDELIM(SX_AT(s, n, SX_ATOM_END(c, j))))) \
    ? SX_ATOM_END(c, j) : SX_FAIL(n))
 /* E[k] and L[k] in terms of the other entries; j is W[k] */
 #define SX_EXPR_END(n, j) \
@@ -171,16 +191,17 @@ extern int g_sx_tabs;
   ((j) >= (n) ? SX_FAIL(n) : g_sxC[j] == SPEC_SX_AT_CLOSE ? (j) + 1 \
    : g_sxE[k] > (n) ? SX_FAIL(n) : g_sxL[g_sxE[k] <= (n) ? g_sxE[k] : 0])
 
-#define SX_TABS_MEM_OK \
-  (__CPROVER_r_ok(g_sxW, SX_TAB_LEN * sizeof(size_t)) && __CPROVER_r_ok(g_sxS, SX_TAB_LEN * sizeof(size_t)) \
-   && __CPROVER_r_ok(g_sxD, SX_TAB_LEN * sizeof(size_t)) && __CPROVER_r_ok(g_sxX, SX_TAB_LEN * sizeof(size_t)) \
-   && __CPROVER_r_ok(g_sxC, SX_TAB_LEN * sizeof(size_t)) && __CPROVER_r_ok(g_sxT, SX_TAB_LEN * sizeof(size_t)) \
-   && __CPROVER_r_ok(g_sxE, SX_TAB_LEN * sizeof(size_t)) && __CPROVER_r_ok(g_sxL, SX_TAB_LEN * sizeof(size_t)))
+#define SX_TABS_MEM_OK __CPROVER_r_ok(g_sxt, sizeof(struct sx_tabs))
 #define SX_NC(n) ((n) <= SX_QMAX ? (n) : 0)
+/* (the input s is a block of symbolic size: every textual read of it costs the
+ * solver array constraints against every other one, so the equations read the
+ * copy CH, whose cells are plain variables once k_ is instantiated) */
+#define SX_CH_EQ(s, n, k_) \
+  ((n) <= SX_QMAX && __CPROVER_forall { size_t k_; (k_ < SX_QMAX) ==> ((k_ < (n)) ==> g_sxCH[k_] == (s)[k_]) })
 #define SX_RUN_EQ(R, ISC, s, n, k_) \
   ((n) <= SX_QMAX && (R)[SX_NC(n)] == (n) \
    && __CPROVER_forall { size_t k_; (k_ < SX_QMAX) ==> ((k_ < (n)) ==> \
-      ((R)[k_] == (ISC((s)[k_]) ? (R)[k_ + 1] : k_) && (R)[k_] <= (n) && (R)[k_] >= k_)) })
+      ((R)[k_] == (ISC(g_sxCH[k_]) ? (R)[k_ + 1] : k_) && (R)[k_] <= (n) && (R)[k_] >= k_)) })
 #define SX_CLS_EQ(s, n, k_) \
   ((n) <= SX_QMAX && __CPROVER_forall { size_t k_; (k_ < SX_QMAX) ==> ((k_ < (n)) ==> \
       (g_sxC[k_] == SX_CLS(s, n, k_) && g_sxT[k_] == SX_ATOM_T(s, n, g_sxC[k_], k_) \
@@ -191,18 +212,29 @@ extern int g_sx_tabs;
         (g_sxE[k_] == SX_EXPR_END(n, g_sxW[k_]) && g_sxL[k_] == SX_TAIL_END(n, k_, g_sxW[k_]) \
          && (g_sxE[k_] == SX_FAIL(n) || (k_ < g_sxE[k_] && g_sxE[k_] <= (n))) \
          && (g_sxL[k_] == SX_FAIL(n) || (k_ < g_sxL[k_] && g_sxL[k_] <= (n))))) })
-/* `requires` clauses: the scanners and the tokenizer need the run tables,
- * the expression level all of them */
-#define SX_RUNS_REQUIRES(s, n) \
-  __CPROVER_requires(SX_TABS_MEM_OK) \
-  __CPROVER_requires(IMPLIES(g_sx_tabs >= 1, SX_RUN_EQ(g_sxW, SPEC_SX_ISSPACE, s, n, kw_))) \
-  __CPROVER_requires(IMPLIES(g_sx_tabs >= 1, SX_RUN_EQ(g_sxS, SPEC_SX_ISSYMCH, s, n, ks_))) \
-  __CPROVER_requires(IMPLIES(g_sx_tabs >= 1, SX_RUN_EQ(g_sxD, SPEC_SX_ISDIGIT, s, n, kd_))) \
-  __CPROVER_requires(IMPLIES(g_sx_tabs >= 1, SX_RUN_EQ(g_sxX, SPEC_SX_ISXDIGIT, s, n, kx_) && g_sxX[SX_NC(n) + 1] == (n) + 1))
+/* The equations are an invariant of GHOST state only (the tables, the flag
+ * and the ghost record g_sx_s / g_sx_n of which input they describe) plus the
+ * input octets, which no function of the reader may assign.  They are assumed
+ * once, by the harness that creates the ghost state (SX_TABLES in
+ * harness/sx.c; the native replay computes the tables instead), and every
+ * contract only requires that it is called on THAT input when the flag is up
+ * -- re-asserting seven quantified formulas at each replaced call made the
+ * expression-level proofs run out of time. */
+extern const char *g_sx_s;
+extern size_t g_sx_n;
+#define SX_GHOST_INVARIANT_RUNS(s, n) \
+  (IMPLIES(g_sx_tabs >= 1, SX_CH_EQ(s, n, kh_)) \
+   && IMPLIES(g_sx_tabs >= 1, SX_RUN_EQ(g_sxW, SPEC_SX_REF_ISSPACE, s, n, kw_)) \
+   && IMPLIES(g_sx_tabs >= 1, SX_RUN_EQ(g_sxS, SPEC_SX_REF_ISSYMCH, s, n, ks_)) \
+   && IMPLIES(g_sx_tabs >= 1, SX_RUN_EQ(g_sxD, SPEC_SX_REF_ISDIGIT, s, n, kd_)) \
+   && IMPLIES(g_sx_tabs >= 1, SX_RUN_EQ(g_sxX, SPEC_SX_REF_ISXDIGIT, s, n, kx_) && g_sxX[SX_NC(n) + 1] == (n) + 1))
+#define SX_GHOST_INVARIANT_GRAMMAR(s, n) \
+  (IMPLIES(g_sx_tabs >= 2, SX_CLS_EQ(s, n, kc_)) \
+   && IMPLIES(g_sx_tabs >= 2, SX_EL_EQ(s, n, ke_)))
 #define SX_TABS_REQUIRES(s, n) \
-  SX_RUNS_REQUIRES(s, n) \
-  __CPROVER_requires(IMPLIES(g_sx_tabs >= 2, SX_CLS_EQ(s, n, kc_))) \
-  __CPROVER_requires(IMPLIES(g_sx_tabs >= 2, SX_EL_EQ(s, n, ke_)))
+  __CPROVER_requires(SX_TABS_MEM_OK) \
+  __CPROVER_requires(IMPLIES(g_sx_tabs >= 1, (s) == g_sx_s && (n) == g_sx_n))
+#define SX_RUNS_REQUIRES(s, n) SX_TABS_REQUIRES(s, n)
 #define SX_RUNS_OK(s, n) (g_sx_tabs >= 1)
 #define SX_GRAMMAR_OK(s, n) (g_sx_tabs >= 2)
 
